@@ -228,6 +228,24 @@ theorem exceeding_selection (e : Engine) (limit : Nat) (m : List (Nat × Nat)) (
   · rintro ⟨hm, o, ho, hgt⟩
     exact ⟨hm, by simp [ho, hgt]⟩
 
+/-- **The close event applies what has elapsed before it drops the records** (D72): a connection that ends before any
+    service call ran after an operation's deadline - the driver delivers the close, or first bytes that do not decode - does not
+    carry that operation to the next connection with a fresh clock: the handler is the timeout pass followed by the rest. -/
+theorem close_applies_elapsed_timeouts_first (e : Engine) (h : e.state ≠ .disconnected) :
+    e.handleClosed =
+      (let (ea, ra) := Engine.processAckTimeouts (e.timeouts.length + 1) e
+       let (eb, rb) := ea.handleClosedCore
+       (eb, (ignoreUserDisconnect ra).fold rb)) := by
+  unfold Engine.handleClosed
+  have hs : (e.state == .disconnected) = false := by simp [h]
+  simp only [hs, Bool.false_eq_true, ↓reduceIte]
+
+/-- ... and after that pass nothing that is due is left for the close to forget -/
+theorem nothing_due_is_dropped_at_close (e : Engine) (id d : Nat)
+    (hn : (Engine.processAckTimeouts (e.timeouts.length + 1) e).1.nextDueTimeout = some (id, d)) :
+    d > (Engine.processAckTimeouts (e.timeouts.length + 1) e).1.now :=
+  pass_leaves_nothing_due (e.timeouts.length + 1) e (Nat.lt_succ_self _) id d hn
+
 /-! ### every history -/
 
 /-- **Never for operations without a timeout - after any sequence of events, for any configuration**: every ack-timeout
